@@ -208,6 +208,41 @@ impl serde::Serialize for ViaCollectStr {
     }
 }
 
+/// Serialises through `collect_seq` / `collect_map` with iterators whose `size_hint` is exact,
+/// bounded-but-inexact (`filter`, `take_while`, `flat_map`), unbounded-unknown (`from_fn`) or
+/// exact after `chain`: what is written must not depend on the crate features.
+pub struct ViaCollect<'a>(pub &'a [u8], pub u8);
+
+impl<'a> serde::Serialize for ViaCollect<'a> {
+    fn serialize<S: serde::Serializer>(&self, s: S) -> Result<S::Ok, S::Error> {
+        let b = self.0;
+        match self.1 % 10 {
+            0 => s.collect_seq(b.iter()),
+            1 => s.collect_seq(b.iter().filter(|x| **x % 3 != 0)),
+            2 => s.collect_seq(b.iter().take_while(|x| **x != 0xff)),
+            3 => {
+                let mut k = 0usize;
+                s.collect_seq(core::iter::from_fn(|| {
+                    k += 1;
+                    b.get(k - 1).map(|x| *x as u16 * 3)
+                }))
+            }
+            4 => s.collect_seq(b.iter().chain(b.iter().take(2))),
+            5 => s.collect_seq(b.iter().flat_map(|x| core::iter::repeat(*x).take((*x % 3) as usize))),
+            6 => s.collect_map(b.iter().enumerate()),
+            7 => s.collect_map(b.iter().enumerate().filter(|(_, x)| **x % 2 == 0)),
+            8 => {
+                let mut k = 0usize;
+                s.collect_map(core::iter::from_fn(|| {
+                    k += 1;
+                    b.get(k - 1).map(|x| (k as u8, *x as i16 - 100))
+                }))
+            }
+            _ => s.collect_seq(b.chunks(2).filter(|c| c.len() == 2).map(|c| ViaCollect(c, c[0]))),
+        }
+    }
+}
+
 #[cfg(feature = "alloc")]
 mod owned {
     use super::*;
@@ -341,6 +376,28 @@ pub fn register(v: &mut Vec<(&'static str, Op)>) {
         let mut buf = [0u8; 128];
         let mut s = Serializer::new(Cursor::new(&mut buf[..]));
         match serde::Serialize::serialize(&ViaCollectStr(n), &mut s) {
+            Ok(_) => {
+                let e = s.into_encoder();
+                let k = e.writer().position();
+                let mut h = Fnv::new();
+                h.bytes(&e.writer().get_ref()[..k]);
+                ok_out(h, k)
+            }
+            Err(e) => {
+                let t = format!("{}", e);
+                let class = if t.starts_with("write error") { "enc_write" } else if t.starts_with("encode error") { "enc_custom" } else { "enc_message" };
+                Out { class, dig: 0, pos: 0, epos: None, flag: '-' }
+            }
+        }
+    }) as Op));
+    v.push(("serde.ser.collect_seq_map", (|b: &[u8]| {
+        let (kind, rest) = match b.split_first() {
+            Some((k, r)) => (*k, &r[..r.len().min(24)]),
+            None => (0, b),
+        };
+        let mut buf = [0u8; 512];
+        let mut s = Serializer::new(Cursor::new(&mut buf[..]));
+        match serde::Serialize::serialize(&ViaCollect(rest, kind), &mut s) {
             Ok(_) => {
                 let e = s.into_encoder();
                 let k = e.writer().position();
